@@ -65,7 +65,7 @@ func (f *File) Apply(filename string, src []byte) ([]byte, error) {
 		}
 
 		snap = snap.Diff(fout, cl)
-		cleanupFilePos(f.fset.File(fout.Pos()), cl, fout.Comments)
+		fout.Comments = cleanupFilePos(f.fset.File(fout.Pos()), cl, fout.Comments)
 	}
 
 	if retErr != nil {
@@ -96,7 +96,12 @@ func (f *File) Apply(filename string, src []byte) ([]byte, error) {
 	return bs, nil
 }
 
-func cleanupFilePos(tfile *token.File, cl engine.Changelog, comments []*ast.CommentGroup) {
+// cleanupFilePos deletes the comments that lie in the changed regions and
+// merges the lines those regions spanned. It returns the comment groups that
+// still have comments: an empty group has no position, and code that walks
+// file.Comments (astutil.DeleteNamedImport for a later change of the same
+// patch, for one) panics on it.
+func cleanupFilePos(tfile *token.File, cl engine.Changelog, comments []*ast.CommentGroup) []*ast.CommentGroup {
 	linesToDelete := make(map[int]struct{})
 	for _, dr := range cl.ChangedIntervals() {
 		if dr.Start == token.NoPos {
@@ -132,4 +137,12 @@ func cleanupFilePos(tfile *token.File, cl engine.Changelog, comments []*ast.Comm
 	for i := len(lines) - 1; i >= 0; i-- {
 		tfile.MergeLine(lines[i])
 	}
+
+	kept := comments[:0]
+	for _, cg := range comments {
+		if len(cg.List) > 0 {
+			kept = append(kept, cg)
+		}
+	}
+	return kept
 }
